@@ -2405,8 +2405,9 @@ def lock_kept_while_the_database_is_shared(ctx, p):
     ctx.ob(p + '0 other-owners-of-the-database', 'anchor', 'db::DbInner', 'the types besides Db that own a reference to DbInner were found (the tree reader)', len(holders) >= 1, str(holders))
     n = 0
     for b in sorted(F.bodies.values(), key=lambda x: x.path):
-        for s_ in b.call_sites(*UNLOCK):
-            if s_ not in b.normal_blocks() or '.DbInner.lock_file' not in lib.receiver_fields(b, b.term(s_), 0):
+        # (the unlock itself, or the call of a helper of the lock object that unlocks: `self.inner.lock_file.release()`)
+        for s_ in lib.sites_reaching(b, UNLOCK):
+            if s_ not in b.normal_blocks() or not b.term(s_)['a'] or '.DbInner.lock_file' not in lib.receiver_fields(b, b.term(s_), 0):
                 continue
             n += 1
             ok = False
